@@ -7,7 +7,9 @@ CONSTANTS
   Kinds = {"plain", "idupd"}
   ForkKinds = {"idupd"}
   ResetDepths = {1, 2}
-  ForkLens = {1, 2}
+  ForkLens = {1}
+  FsKinds = {"plain", "idupd"}
+  FsLens = {2}
   PreHeads = {2, 5}
   ExportOn = FALSE
 INIT MInit
